@@ -2,7 +2,7 @@
 (* Family "genconfig": one configuration delivered through every single-option channel assignment (YAML / CLI / both with contradicting YAML), all-CLI, all-both and mixed assignments; failure cases.  Serves C16. *)
 EXTENDS GenShapes, TLC, Json
 CONSTANTS MCDeep, MCLong
-VARIABLES sh, M, obj, tf, dg, pn, pc, hist, viol, aux
+VARIABLES sh, M, Mi, obj, tf, dg, pn, pc, hist, viol, aux
 MCShapes == GenConfigShapes(MCLong)
 MCProps == {"C16"}
 MCScript == <<>>
